@@ -24,8 +24,11 @@ def gen_table(rng, kind):
             txt = rng.choice(ALPHA[:11])
         else:
             txt = "".join(rng.choice(ALPHA) for _ in range(rng.choice([1, 1, 1, 2, 2, 3, 4])))
-        if txt.strip(" ") == "" or txt.startswith(" "):
+        if txt.strip(" ") == "":
             txt = "q" + txt
+        if kind != "single" and rng.random() < 0.15:
+            # dictionary entries that begin with blanks (" the"): the blanks belong to the text
+            txt = rng.choice([" ", "  "]) + txt
         if kind in ("single", "prefixfree"):
             # unique, prefix-free codes: fixed length 2
             # variable length, prefix-free by construction: the first byte decides the length
